@@ -1,7 +1,8 @@
 """Check configuration for C15 (loaded by bin/props.py)."""
-from props_common import STD_ASSUME
+from props_common import STD_ASSUME, KNOBS_ENGINES, KNOBS_ASSUME
 
 CFG = {
+    "knobs": KNOBS_ENGINES,
     "pkg": "banyand/internal/verif/props/c15",
     "level": "translation_validation",
     "level_text": ("differential validation on simulated states: the same generated write/clock history is executed on twin real standalone nodes, one with the vectorized query path enabled "
@@ -16,5 +17,5 @@ CFG = {
         "real": ["pkg/query/vectorized/** (measure, stream plans, dispatch, batches)", "banyand/measure query_vectorized.go, banyand/stream query_vectorized.go", "row path: pkg/query/logical/** + executors", "banyand/query processors (dispatch/fallback)"],
         "stub": ["metadata registry (simmeta)", "gRPC transport", "clock (testing/synctest)", "no liaison<->data node frames"],
     },
-    "assumptions": STD_ASSUME,
+    "assumptions": STD_ASSUME + [KNOBS_ASSUME],
 }
